@@ -345,7 +345,7 @@ func collectPackages(parentDir string, alreadyCollected map[string]*PackageInfo,
 	}
 
 	if collected, found := alreadyCollected[parentInfo.Namespace]; found {
-		if collected.FilePath != parentInfo.FilePath {
+		if collected.FilePath != parentInfo.FilePath && !isSameFile(collected.FilePath, parentInfo.FilePath) {
 			return collected, validation.NewValidationError(fmt.Errorf("namespace '%s' conflicts with '%s'", parentInfo.Namespace, collected.FilePath), parentInfo.FilePath)
 		} else {
 			return collected, nil
@@ -377,6 +377,20 @@ func collectPackages(parentDir string, alreadyCollected map[string]*PackageInfo,
 	}
 
 	return parentInfo, nil
+}
+
+// Reports whether two paths name the same file, e.g. one package directory
+// reached directly and through a symbolic link.
+func isSameFile(path1, path2 string) bool {
+	info1, err := os.Stat(path1)
+	if err != nil {
+		return false
+	}
+	info2, err := os.Stat(path2)
+	if err != nil {
+		return false
+	}
+	return os.SameFile(info1, info2)
 }
 
 // Fetch and cache each package version in pkgInfo.Versions
